@@ -7,7 +7,9 @@ import re
 from ..core import Run, AnalysisError, dotted, norm, PKG
 
 EXPLANATION = (
-    "Decides only the well-formedness clause of C18 (balanced braces, matched \\left/\\right), by induction over the custom "
+    "Decides the well-formedness clause of C18 and three code-visible necessary conditions of the value clause (L4 an outer exponent "
+    "handed to a printer method is used on every path not guarded by `exp is None`; L5 numbers are never rounded or re-formatted; L6 no "
+    "f-string emits an unsubstituted {placeholder}); L3 keeps the induction sound: LaTeX strings are composed, never cut. Well-formedness (balanced braces, matched \\left/\\right), by induction over the custom "
     "printer: L1 every string template emitted by the methods of the LaTeX printer class (f-strings with their placeholders "
     "removed, %-format strings, plain literals) is brace-balanced and \\left/\\right-balanced on its own, so any concatenation / "
     "formatting of balanced pieces with balanced sub-results is balanced; L2 every display_latex= and subscript= literal in the "
